@@ -288,6 +288,9 @@ func c06Free(r *mon.Run, caseID string, g *rand.Rand, cfg c06Cfg) {
 			// minute or more in aggkit code (taken before the node is stopped)
 			time.Sleep(65 * time.Second) // the runtime prints waiting times from one minute on
 			scen["goroutines_blocked_in_aggkit"] = blockedAggkitGoroutines()
+			if t := errorLogTail(40, "processing reorg", "error processing events", "error adding block"); t != nil {
+				scen["node_error_log_tail"] = t
+			}
 		}
 		node.stop()
 		ev := ch.Events()
@@ -549,13 +552,13 @@ func TestC06(t *testing.T) {
 		c06Free(r, caseID, g, cfg)
 	})
 	// windows inside the driver / detector hand-shake (see c06_handshake_test.go)
-	nWin := r.N(16, 160)
+	nWin := r.N(20, 200)
 	parallel(nWin, workers, func(i int) {
 		caseID := fmt.Sprintf("window/%d", i)
 		if !r.Only(caseID) {
 			return
 		}
-		c06Window(r, caseID, rng(r, "window", i), []string{"crash-in-reorg", "crash-after-process", "retrack-window"}[i%3])
+		c06Window(r, caseID, rng(r, "window", i), []string{"crash-in-reorg", "crash-after-process", "retrack-window", "unprocessable-block"}[i%4])
 	})
 	nSlow := r.N(3, 16)
 	parallel(nSlow, workers, func(i int) {
@@ -674,7 +677,7 @@ func TestC06(t *testing.T) {
 		})
 	})
 	r.Set("concurrent_starts_that_converged", int(concStarted.Load()))
-	finish(t, r, r.N(25, 60), "free/*", "rewind/replace*", "rewind/none*", "fork/replaces-served*", "concurrent-start/*", "window/crash-in-reorg*", "window/crash-after-process*", "window/slow-store*", "window/retrack-window*")
+	finish(t, r, r.N(25, 60), "free/*", "rewind/replace*", "rewind/none*", "fork/replaces-served*", "concurrent-start/*", "window/crash-in-reorg*", "window/crash-after-process*", "window/slow-store*", "window/retrack-window*", "window/unprocessable-block*")
 }
 
 // blockedAggkitGoroutines returns the (de-duplicated) stacks of goroutines that have been waiting
@@ -686,7 +689,11 @@ func blockedAggkitGoroutines() []string {
 	var order []string
 	for _, g := range strings.Split(string(buf[:n]), "\n\n") {
 		lines := strings.Split(g, "\n")
-		if len(lines) < 2 || !strings.Contains(lines[0], "minutes") || !strings.Contains(g, "github.com/agglayer/aggkit/") {
+		if len(lines) < 2 || !strings.Contains(g, "github.com/agglayer/aggkit/") {
+			continue
+		}
+		// blocked for a minute or more, or anywhere inside the driver's block / reorg handling
+		if !strings.Contains(lines[0], "minutes") && !strings.Contains(g, "EVMDriver).handle") {
 			continue
 		}
 		var fr []string
@@ -698,14 +705,14 @@ func blockedAggkitGoroutines() []string {
 				fr = append(fr, l)
 			}
 		}
-		if len(fr) > 8 {
-			fr = fr[:8]
+		if len(fr) > 12 {
+			fr = fr[:12]
 		}
 		state := lines[0]
 		if i := strings.Index(state, "["); i >= 0 {
 			state = state[i:]
 		}
-		key := state[:min(len(state), 14)] + " " + strings.Join(fr, " < ")
+		key := state + " " + strings.Join(fr, " < ")
 		if seen[key] == 0 {
 			order = append(order, key)
 		}
@@ -714,7 +721,7 @@ func blockedAggkitGoroutines() []string {
 	var out []string
 	for _, k := range order {
 		out = append(out, fmt.Sprintf("%dx %s", seen[k], k))
-		if len(out) >= 12 {
+		if len(out) >= 20 {
 			break
 		}
 	}
